@@ -17,6 +17,8 @@ From TS Require Import Spec.C10GoGrammar.
 From TS Require Proofs.C10_GOGrammarTok Proofs.C10_GOGrammarSemi Proofs.C10_GOGrammarParse Proofs.C10_GOGrammar Proofs.C10_GOGrammarFile.
 From TS Require Import Spec.C10SwGrammar.
 From TS Require Proofs.C10_SWGrammarTok Proofs.C10_SWGrammarParse Proofs.C10_SWGrammarDecl Proofs.C10_SWGrammar Proofs.C10_SWGrammarFile.
+From TS Require Import Spec.C10ScGrammar.
+From TS Require Proofs.C10_SCGrammarTok Proofs.C10_SCGrammarParse Proofs.C10_SCGrammar Proofs.C10_SCGrammarFile.
 
 (* ---------------------------------------------------------------- the lexers *)
 (* the lexer never looks below the bracket stack it started with: a text that is balanced on its own
@@ -884,3 +886,230 @@ Theorem C10_swift_label_rejected :
     contains_sub (lit "public init(let: String)") text = true /\ good_C10_lex CSW text = true /\ c10_sw_recognise text = None.
 Proof. exact Proofs.C10_SWGrammarFile.swift_label_rejected. Qed.
 Print Assumptions C10_swift_label_rejected.
+
+(* ---------------------------------------------------------------- (3'') the GRAMMAR half, Scala *)
+(* "the recogniser" = c10_sc_recognise of Spec/C10ScGrammar.v: the tokenizer of the Scala lexical syntax (identifiers, back-quoted
+   identifiers, string literals with the escapes of the language, // comments and NESTED block comments, one raw token per line
+   end), the newline rule of SLS 1.2 as a left-to-right automaton (c10_sc_nls: a line end becomes the token nl when the token
+   before it can end a statement, the token after it can begin one and the region is one where newlines are enabled), and the
+   recursive-descent parser of the declaration subset of SLS chapter 13 (compilation units, package clauses, packagings, package
+   objects, class / object / trait definitions with type-parameter and parameter clauses, templates, type / val / def members),
+   written from the language specification; checks/c10.py runs its extraction on every real and every modelled Scala file (driver
+   command c10_sc_parse); Some n = the text is a compilation unit with n definitions.
+
+   The tokenizer is compositional at token boundaries: if b does not start with an identifier / number character, a star or a
+   slash, or a ends with a character that is none of these, and a line comment of a, if there is one, is closed by a's final line
+   end (glue a b), the raw tokens of a ++ b are those of a followed by those of b - with exactly the fuel the recogniser gives it. *)
+Theorem C10_sc_tokens_frame :
+  forall (a : str) (ta : list c10_utok) (b : str) (tb : list c10_utok),
+    c10_sc_tokens (S (List.length a)) a = Some ta -> c10_sc_tokens (S (List.length b)) b = Some tb ->
+    Proofs.C10_SCGrammarTok.glue a b = true ->
+    c10_sc_tokens (S (List.length (a ++ b))) (a ++ b) = Some (ta ++ tb).
+Proof. exact Proofs.C10_SCGrammarTok.tokens_frame. Qed.
+Print Assumptions C10_sc_tokens_frame.
+
+(* The newline automaton is compositional: NR regs ce pend a a' regs' ce' pend' says that from the state (region stack, "the last
+   token can end a statement", "a line end is pending") the raw tokens a are turned into a' and leave the automaton in the second
+   state, WHATEVER follows; two such runs compose. *)
+Theorem C10_sc_newlines_compose :
+  forall r0 c0 p0 a a' r1 c1 p1 b b' r2 c2 p2,
+    Proofs.C10_SCGrammarParse.NR r0 c0 p0 a a' r1 c1 p1 -> Proofs.C10_SCGrammarParse.NR r1 c1 p1 b b' r2 c2 p2 ->
+    Proofs.C10_SCGrammarParse.NR r0 c0 p0 (a ++ b) (a' ++ b') r2 c2 p2.
+Proof. exact Proofs.C10_SCGrammarParse.nr_app. Qed.
+Print Assumptions C10_sc_newlines_compose.
+
+(* The parser is complete for the declarative token grammar Gt of Proofs/C10_SCGrammarParse.v (types: a name that is not a
+   reserved word, a name applied to a non-empty comma-separated list of types in square brackets, a parenthesised list of types):
+   the tokens of a type followed by anything that does not start with a dot or an opening square bracket are consumed exactly, with
+   the fuel the recogniser gives itself. *)
+Theorem C10_sc_type_grammar_complete :
+  forall (t rest : list c10_utok),
+    Proofs.C10_SCGrammarParse.Gt Proofs.C10_SCGrammarParse.TTy t -> Proofs.C10_SCGrammarParse.tfol rest ->
+    c10_sc_type (t ++ rest) = Some rest.
+Proof. exact Proofs.C10_SCGrammarParse.sc_type_ok. Qed.
+Print Assumptions C10_sc_type_grammar_complete.
+
+(* Statement sequences: if every token list of ds is a statement the parser accepts whatever follows it (StatOk: it starts with a
+   keyword and c10_sq in mode UStat consumes exactly it, before the end, a closing brace or a line end and the next keyword - proved
+   for type aliases, [case] classes with parameter clauses and templates, plain classes, [case] objects, sealed traits, val / def
+   members, packagings and package objects), then the statements separated by ONE nl each, followed by the closing brace of the
+   block (or the end of the unit), are consumed exactly and the definitions counted are the sum. *)
+Theorem C10_sc_stats_grammar_complete :
+  forall (top cl : bool) (ds : list (list c10_utok)) (ns : list nat),
+    Forall2 (Proofs.C10_SCGrammarParse.StatOk top) ds ns ->
+    forall (f : nat) (rest : list c10_utok), (2 * List.length (Proofs.C10_SCGrammarParse.seq_toks ds) + 5 <= f)%nat ->
+      c10_sq f (UStats top cl) (Proofs.C10_SCGrammarParse.seq_toks ds ++ Proofs.C10_SCGrammarParse.tail_toks cl rest) =
+      Some (fold_right plus O ns, Proofs.C10_SCGrammarParse.tail_rest cl rest).
+Proof. exact Proofs.C10_SCGrammarParse.stats_ok. Qed.
+Print Assumptions C10_sc_stats_grammar_complete.
+
+(* Layout layer, every declaration form: the text of a declaration that is well-formed for the grammar (c10_scg_decl_ok: names,
+   type parameters, parameter names, case names, parents and content keys are identifier-shaped and not reserved words; doc lines
+   without a line end; wire names key-shaped; every type tree made of such names and of verbatim leaves that are types of the
+   grammar; a case class has at least one member and no member carries the `= _` default) is a PIECE: a closed fragment whose raw
+   tokens the newline automaton turns - after an opening brace as well as after a previous statement - into one or more statements
+   separated by one nl, each accepted by the parser and counting at least one definition; aliases and the helper-alias block as
+   members of a template (top = false), classes and enums as top-level statements as well (top = true). *)
+Theorem C10_sc_layout_pieces :
+  forall d : sc_decl, Proofs.C10_SCGrammar.c10_scg_decl_ok d ->
+    Proofs.C10_SCGrammar.PSd (Proofs.C10_SCGrammar.decl_top d) (sc_render_decl d).
+Proof. exact Proofs.C10_SCGrammar.sc_render_decl_gram. Qed.
+Print Assumptions C10_sc_layout_pieces.
+
+(* Layout layer, whole texts: the concatenated text of ANY list of well-formed class / enum declarations is accepted as a
+   compilation unit with at least that many definitions (they stand at the top level: the form written under a package name
+   without a dot) ... *)
+Theorem C10_sc_layout_grammar_top :
+  forall ds : list sc_decl, Forall (fun d => Proofs.C10_SCGrammar.c10_scg_decl_ok d /\ Proofs.C10_SCGrammar.decl_top d = true) ds ->
+    exists n : nat, c10_sc_recognise (List.concat (map sc_render_decl ds)) = Some n /\ (List.length ds <= n)%nat.
+Proof. exact Proofs.C10_SCGrammarFile.sc_top_decls_recognised. Qed.
+Print Assumptions C10_sc_layout_grammar_top.
+
+(* ... and under a dotted package name a.b.c: the package clause `package a.b`, the package object c with ANY list of well-formed
+   aliases / helper-alias blocks, the packaging c with ANY list of well-formed classes and enums. *)
+Theorem C10_sc_layout_grammar :
+  forall (init : list str) (last : str) (das dps : list sc_decl),
+    init <> [] -> Forall Proofs.C10_SCGrammar.gname init -> Proofs.C10_SCGrammar.gname last ->
+    Forall (fun d => Proofs.C10_SCGrammar.c10_scg_decl_ok d /\ Proofs.C10_SCGrammar.decl_top d = false) das ->
+    Forall (fun d => Proofs.C10_SCGrammar.c10_scg_decl_ok d /\ Proofs.C10_SCGrammar.decl_top d = true) dps ->
+    exists n : nat,
+      c10_sc_recognise (lit "package " ++ join [46%N] init ++ sc_nl ++ sc_nl ++
+                        lit "package object " ++ last ++ lit " {" ++ sc_nl ++ sc_nl ++ List.concat (map sc_render_decl das) ++ lit "}" ++ sc_nl ++
+                        lit "package " ++ last ++ lit " {" ++ sc_nl ++ sc_nl ++ List.concat (map sc_render_decl dps) ++ lit "}" ++ sc_nl) = Some n /\
+      (List.length das + List.length dps <= n)%nat.
+Proof. exact Proofs.C10_SCGrammarFile.sc_packaged_decls_recognised. Qed.
+Print Assumptions C10_sc_layout_grammar.
+
+(* Whole files, from the IR: for every program of dom_C10 and every admissible configuration (the hypotheses of C10_lex_scala),
+   strengthened by what the grammar needs -
+     c10_scg_cfg_ok: every type_mappings value is the text of a type of the grammar (TyText), and the package name is a QualId:
+       identifiers that are not reserved words, separated by dots (excluded: `com.my-app`, `a..b`, `com.type.x`);
+     c10_scg_dom: no declared or referenced name is a reserved word (struct / enum serde names, the enum's and the alias's Rust
+       name, type parameters, variant names, referenced types: the finding class C10-scala-keyword-name is outside); every
+       case-class parameter - the renamed field with its dashes replaced - is identifier-shaped and not a reserved word
+       (C10-digit-name and C10-scala-keyword-name are outside); every Scala type override is the text of a type of the grammar;
+       serde(default) stands only on Option fields (the finding class C10-scala-default, `x: T = _`, is outside); the content key of
+       a tagged enum, printed as the parameter name of every variant with a payload, is an identifier that is not a reserved word
+       (the finding classes C10-scala-content-key, content = "my-key", and C10-scala-keyword-name are outside);
+     c10_scg_toplevel_ok: the package name has a dot, or nothing is written into the package-object section (no alias, no unsigned
+       integer anywhere: the finding class C10-scala-toplevel-alias is outside) -
+   the recogniser accepts the generated file: version header, package clause, package object with the helper aliases and the
+   aliases, packaging with the case classes, plain classes, sealed traits and companion objects; it finds at least one definition
+   per written item (Scala writes no constants). *)
+Theorem C10_grammar_scala :
+  forall (uc : unicode) (cfg : sc_config) (pd : parsed) (text : str),
+    Proofs.C10_SC.c10_sc_cfg_ok cfg = true -> Proofs.C10_SCGrammarFile.c10_scg_cfg_ok cfg ->
+    dom_C10 CSC pd = true -> Proofs.C10_SCGrammarFile.c10_scg_dom pd -> Proofs.C10_SCGrammarFile.c10_scg_toplevel_ok cfg pd ->
+    sc_generate uc cfg pd = Ok text ->
+    exists n : nat, c10_sc_recognise text = Some n /\
+                    (List.length (p_aliases pd) + List.length (p_structs pd) + List.length (p_enums pd) <= n)%nat.
+Proof. exact Proofs.C10_SCGrammarFile.sc_generate_recognised. Qed.
+Print Assumptions C10_grammar_scala.
+
+(* The same with the grammar domain spelled as "in no recorded finding class": for every program of dom_C10 that is in no class of
+   known_C10 (C10-scala-default, C10-digit-name) and in no class of known_C10_sc_grammar (C10-scala-keyword-name,
+   C10-scala-toplevel-alias, C10-scala-content-key) - the two class functions the check evaluates on every case - and whose Scala
+   type overrides are types of the grammar (c10_scg_overrides_ok), under an admissible configuration whose type_mappings values are
+   types of the grammar and whose package name is a QualId, the recogniser accepts the generated file. *)
+Theorem C10_grammar_scala_classes :
+  forall (uc : unicode) (cfg : sc_config) (pd : parsed) (text : str),
+    Proofs.C10_SC.c10_sc_cfg_ok cfg = true -> Proofs.C10_SCGrammarFile.c10_scg_cfg_ok cfg -> dom_C10 CSC pd = true ->
+    known_C10 CSC (sc_package cfg) pd = [] -> known_C10_sc_grammar (sc_package cfg) pd = [] ->
+    Proofs.C10_SCGrammarFile.c10_scg_overrides_ok pd ->
+    sc_generate uc cfg pd = Ok text ->
+    exists n : nat, c10_sc_recognise text = Some n /\
+                    (List.length (p_aliases pd) + List.length (p_structs pd) + List.length (p_enums pd) <= n)%nat.
+Proof. exact Proofs.C10_SCGrammarFile.sc_generate_recognised_classes. Qed.
+Print Assumptions C10_grammar_scala_classes.
+
+(* The same with COMPUTABLE hypotheses only: every type_mappings value and every Scala type override is a name of the grammar
+   (identifier-shaped, not a reserved word: String, Instant, BigInt ...), the package name splits at its dots into such names; the
+   program is in dom_C10 and in none of the five finding classes. *)
+Theorem C10_grammar_scala_simple :
+  forall (uc : unicode) (cfg : sc_config) (pd : parsed) (text : str),
+    Proofs.C10_SC.c10_sc_cfg_ok cfg = true -> Proofs.C10_SCGrammarFile.c10_scg_cfg_simple cfg = true -> dom_C10 CSC pd = true ->
+    known_C10 CSC (sc_package cfg) pd = [] -> known_C10_sc_grammar (sc_package cfg) pd = [] ->
+    Proofs.C10_SCGrammarFile.c10_scg_overrides_simple pd = true ->
+    sc_generate uc cfg pd = Ok text ->
+    exists n : nat, c10_sc_recognise text = Some n /\
+                    (List.length (p_aliases pd) + List.length (p_structs pd) + List.length (p_enums pd) <= n)%nat.
+Proof. exact Proofs.C10_SCGrammarFile.sc_generate_recognised_simple. Qed.
+Print Assumptions C10_grammar_scala_simple.
+
+(* The hypotheses are satisfiable and acceptance means something: a program with a documented generic case class (String, an
+   Option with its `= None` default, Vector, a mapped Url, Map of a generic application, a dashed doubly-optional key, a verbatim
+   override `Map[String, Vector[Int]]`), a struct without fields, a generic alias, a unit enum and a tagged enum with unit / tuple /
+   struct variants, under the package com.agilebits.onepassword with the version header, is in the domain, in no finding class
+   (neither known_C10 nor known_C10_sc_grammar), and its file - header comment, `package com.agilebits`, package object with the
+   four helper aliases and the alias, packaging with three classes, two sealed traits and two companion objects - is accepted as
+   12 definitions; the same text without its last three characters, without its first opening parenthesis, with its first `=`
+   turned into `:`, without its first comma, or without its first opening square bracket is rejected. *)
+Theorem C10_grammar_scala_witness :
+  Proofs.C10_SC.c10_sc_cfg_ok Proofs.C10_SCGrammarFile.g_cfg = true /\ Proofs.C10_SCGrammarFile.c10_scg_cfg_ok Proofs.C10_SCGrammarFile.g_cfg /\
+  dom_C10 CSC Proofs.C10_SCGrammarFile.g_prog = true /\ Proofs.C10_SCGrammarFile.c10_scg_dom Proofs.C10_SCGrammarFile.g_prog /\
+  Proofs.C10_SCGrammarFile.c10_scg_toplevel_ok Proofs.C10_SCGrammarFile.g_cfg Proofs.C10_SCGrammarFile.g_prog /\
+  known_C10 CSC (sc_package Proofs.C10_SCGrammarFile.g_cfg) Proofs.C10_SCGrammarFile.g_prog = [] /\
+  known_C10_sc_grammar (sc_package Proofs.C10_SCGrammarFile.g_cfg) Proofs.C10_SCGrammarFile.g_prog = [] /\
+  sc_generate uc_exec Proofs.C10_SCGrammarFile.g_cfg Proofs.C10_SCGrammarFile.g_prog = Ok Proofs.C10_SCGrammarFile.g_text /\
+  c10_sc_recognise Proofs.C10_SCGrammarFile.g_text = Some 12%nat /\
+  contains_sub (lit "package object onepassword {") Proofs.C10_SCGrammarFile.g_text = true /\
+  contains_sub (lit "case class Person[T, U] (") Proofs.C10_SCGrammarFile.g_text = true /\
+  contains_sub (lit "first_name: Option[Option[String]] = None,") Proofs.C10_SCGrammarFile.g_text = true /\
+  contains_sub (lit "case class S[T](content: ESInner[T]) extends E[T] {") Proofs.C10_SCGrammarFile.g_text = true /\
+  c10_sc_recognise (firstn (List.length Proofs.C10_SCGrammarFile.g_text - 3) Proofs.C10_SCGrammarFile.g_text) = None /\
+  c10_sc_recognise (Proofs.C10_SCGrammarFile.g_drop_first 40 Proofs.C10_SCGrammarFile.g_text) = None /\
+  c10_sc_recognise (Proofs.C10_SCGrammarFile.g_subst_first 61 58 Proofs.C10_SCGrammarFile.g_text) = None /\
+  c10_sc_recognise (Proofs.C10_SCGrammarFile.g_drop_first 44 Proofs.C10_SCGrammarFile.g_text) = None /\
+  c10_sc_recognise (Proofs.C10_SCGrammarFile.g_drop_first 91 Proofs.C10_SCGrammarFile.g_text) = None.
+Proof. exact Proofs.C10_SCGrammarFile.grammar_witness. Qed.
+Print Assumptions C10_grammar_scala_witness.
+
+(* the finding classes the recogniser exposed are real.  C10-scala-keyword-name: the Scala back end escapes no reserved word - a
+   struct with the fields r#type and val is in dom_C10, in no class of known_C10, in the class C10-scala-keyword-name, its file
+   (`type: String,` / `val: Int` as case-class parameters) is lexically balanced and rejected by the recogniser *)
+Theorem C10_scala_keyword_name_refuted :
+  exists text, dom_C10 CSC Proofs.C10_SCGrammarFile.k_prog = true /\
+    known_C10 CSC (sc_package Proofs.C10_SCGrammarFile.g_cfg) Proofs.C10_SCGrammarFile.k_prog = [] /\
+    known_C10_sc_grammar (sc_package Proofs.C10_SCGrammarFile.g_cfg) Proofs.C10_SCGrammarFile.k_prog = ["C10-scala-keyword-name"%string] /\
+    sc_generate uc_exec Proofs.C10_SCGrammarFile.g_cfg Proofs.C10_SCGrammarFile.k_prog = Ok text /\
+    contains_sub (lit "type: String,") text = true /\ contains_sub (lit "val: Int") text = true /\
+    good_C10_lex CSC text = true /\ c10_sc_recognise text = None.
+Proof. exact Proofs.C10_SCGrammarFile.scala_keyword_name_refuted. Qed.
+Print Assumptions C10_scala_keyword_name_refuted.
+
+(* C10-scala-toplevel-alias: under the package name `p` (no dot) an alias and a struct with an unsigned field are in dom_C10, in no
+   class of known_C10, in the class C10-scala-toplevel-alias; the file starts with `type UByte = Byte` at the top level of the
+   compilation unit - the word `package` occurs nowhere in it -, is lexically balanced and rejected by the recogniser (Scala 2
+   admits only classes, objects, traits, imports and packagings there) *)
+Theorem C10_scala_toplevel_alias_refuted :
+  exists text, Proofs.C10_SC.c10_sc_cfg_ok Proofs.C10_SCGrammarFile.t_cfg = true /\ dom_C10 CSC Proofs.C10_SCGrammarFile.t_prog = true /\
+    known_C10 CSC (sc_package Proofs.C10_SCGrammarFile.t_cfg) Proofs.C10_SCGrammarFile.t_prog = [] /\
+    known_C10_sc_grammar (sc_package Proofs.C10_SCGrammarFile.t_cfg) Proofs.C10_SCGrammarFile.t_prog = ["C10-scala-toplevel-alias"%string] /\
+    sc_generate uc_exec Proofs.C10_SCGrammarFile.t_cfg Proofs.C10_SCGrammarFile.t_prog = Ok text /\
+    starts_with (lit "type UByte = Byte") text = true /\ contains_sub (lit "type Al = Vector[UInt]") text = true /\
+    contains_sub (lit "package") text = false /\ good_C10_lex CSC text = true /\ c10_sc_recognise text = None.
+Proof. exact Proofs.C10_SCGrammarFile.scala_toplevel_alias_refuted. Qed.
+Print Assumptions C10_scala_toplevel_alias_refuted.
+
+(* C10-scala-content-key: a tagged enum with content = "my-content" and a tuple variant is in dom_C10 (the key is key-shaped), in
+   no class of known_C10, in the class C10-scala-content-key; its file has `case class A(my-content: String) extends E {`, is
+   lexically balanced and rejected by the recogniser (the key is printed as the parameter name as it is) *)
+Theorem C10_scala_content_key_refuted :
+  exists text, dom_C10 CSC Proofs.C10_SCGrammarFile.c_prog = true /\
+    known_C10 CSC (sc_package Proofs.C10_SCGrammarFile.g_cfg) Proofs.C10_SCGrammarFile.c_prog = [] /\
+    known_C10_sc_grammar (sc_package Proofs.C10_SCGrammarFile.g_cfg) Proofs.C10_SCGrammarFile.c_prog = ["C10-scala-content-key"%string] /\
+    sc_generate uc_exec Proofs.C10_SCGrammarFile.g_cfg Proofs.C10_SCGrammarFile.c_prog = Ok text /\
+    contains_sub (lit "case class A(my-content: String) extends E {") text = true /\
+    good_C10_lex CSC text = true /\ c10_sc_recognise text = None.
+Proof. exact Proofs.C10_SCGrammarFile.scala_content_key_refuted. Qed.
+Print Assumptions C10_scala_content_key_refuted.
+
+(* the recorded class C10-scala-default is seen by the recogniser too: `x: String = _` is not a ClassParam (`_` is not an Expr) *)
+Theorem C10_scala_default_rejected :
+  exists text, dom_C10 CSC Proofs.C10_SCGrammarFile.d_prog = true /\
+    known_C10 CSC (sc_package Proofs.C10_SCGrammarFile.g_cfg) Proofs.C10_SCGrammarFile.d_prog = ["C10-scala-default"%string] /\
+    known_C10_sc_grammar (sc_package Proofs.C10_SCGrammarFile.g_cfg) Proofs.C10_SCGrammarFile.d_prog = [] /\
+    sc_generate uc_exec Proofs.C10_SCGrammarFile.g_cfg Proofs.C10_SCGrammarFile.d_prog = Ok text /\
+    contains_sub (lit "x: String = _") text = true /\ c10_sc_recognise text = None.
+Proof. exact Proofs.C10_SCGrammarFile.scala_default_rejected. Qed.
+Print Assumptions C10_scala_default_rejected.
